@@ -72,6 +72,8 @@ def _shard_c25(args):
                 types += [T(a | b) for a, b in itertools.combinations(cls + [int, float, type(None)], 2)]
                 types += [T(tuple[cls[0] | cls[2], cls[1]]), T(tuple[cls[3]] | None), T(list[cls[1] | cls[3]]), T(tuple[cls[1]] | tuple[cls[2]]),
                           T(list[cls[2]] | None), T(tuple[cls[1] | cls[3]]), T(tuple[cls[2]]), T(tuple[cls[1]])]
+                # tuples of unknown size and of other lengths than two
+                types += [T(tuple), T(tuple[cls[0], cls[1], cls[2]]), T(tuple[cls[1], cls[1], int]), T(tuple[typing.Any])]
                 uniq = []
                 for t in types:
                     if t not in uniq:
